@@ -2006,9 +2006,9 @@ def run_splitext(ctx, case):
 
 
 STREAMS = [
-    Stream("valid_tracks", gen_valid, run_case, quick=1920, thorough=24000, shards=16),
-    Stream("rule_violations", gen_violations, run_case, quick=1344, thorough=16800, shards=16),
-    Stream("malformed", gen_malformed, run_malformed, quick=672, thorough=8400, shards=8),
+    Stream("valid_tracks", gen_valid, run_case, quick=1280, thorough=24000, shards=16),
+    Stream("rule_violations", gen_violations, run_case, quick=896, thorough=16800, shards=16),
+    Stream("malformed", gen_malformed, run_malformed, quick=504, thorough=8400, shards=8),
     Stream("operation_types", gen_optypes, run_optypes, quick=400, thorough=20000, shards=2),
     Stream("splitext", gen_splitext, run_splitext, quick=1000, thorough=40000, shards=2),
 ]
